@@ -59,6 +59,18 @@ def run(pid, tier, seed, replay=None):
                                   lambda c=c: {"case": c, "event": find_event(c["part"], c["ep"])},
                                   "%s: %s %s.%s %s" % (c["ep"], c["clause"], cls, prop, what))
             cleanup(trace, rep)
+        # the edge values of every type, written out (not sampled), both formats
+        trace = os.path.join(OUT, "C06_bound.ndjson")
+        rbxv(["cross-cases", "--count", 4 if quick else 40, "--boundary", 1], stdout_path=trace)
+        n, fails = validate_cases("CrossFormatTrace", trace, env)
+        total += n
+        extra["boundary_cases"] = n
+        for c in fails:
+            for k, cls, prop, what in (c.get("issues") or [[0, "", "", ""]]):
+                rep.violation("%s|%s.%s|%s" % (c["clause"], cls, prop, what),
+                              lambda c=c: {"case": c, "event": find_event(c["part"], c["ep"])},
+                              "%s: %s %s.%s %s" % (c["ep"], c["clause"], cls, prop, what))
+        cleanup(trace, rep)
         # huge exact-identity forests (17 000 instances, values of more than a mebibyte, 66 000 keypoints), by fingerprint
         trace = os.path.join(OUT, "C06_huge.ndjson")
         rbxv(["cross-cases", "--seed", seed + 9, "--count", 4 if quick else 24, "--huge", 1], stdout_path=trace)
